@@ -1181,7 +1181,7 @@ start:
     uint64_t *bmptr;
     if (!_fsm_bmptr(fsm, &bmptr)) {
       IWFS_EXT *pool = &fsm->pool;
-      rc = pool->sync_mmap(pool, fsm->bmoff, IWFS_SYNCDEFAULT);
+      rc = pool->sync_mmap(pool, fsm->mmap_all ? 0 : fsm->bmoff, IWFS_SYNCDEFAULT);
     }
   }
   return rc;
